@@ -243,6 +243,11 @@ a = spec_ids(OK, ["--run-space-launch-id", "my-launch-7", "--run-space-attempt",
 b1 = spec_ids(OK.replace("{dir}", "/nonexistent_dir_for_c09"), ["--run-space-idempotency-key", "k1"])[1]
 b2 = spec_ids(OK.replace("{dir}", "/nonexistent_dir_for_c09"), ["--run-space-idempotency-key", "k1"])[1]
 b3 = spec_ids(OK.replace("{dir}", "/nonexistent_dir_for_c09"), ["--run-space-idempotency-key", "k2"])[1]
+b4 = spec_ids(OK.replace("{dir}", "/nonexistent_dir_for_c09"), ["--run-space-idempotency-key", "k1", "--run-space-attempt", "2"])[1]
+if not b4 or b4["run_space_attempt"] != 2:
+    fail("launch-id:attempt-not-recorded-with-an-idempotency-key", got=b4 and b4.get("run_space_attempt"))
+elif b1 and b4["run_space_launch_id"] != b1["run_space_launch_id"]:
+    fail("launch-id:idempotent-id-depends-on-the-attempt")
 g1, g2 = spec_ids(OK)[1], spec_ids(OK)[1]
 distinct |= {("launch-id", m) for m in ("explicit", "idempotency", "generated")}
 if not a or a["run_space_launch_id"] != "my-launch-7" or a["run_space_attempt"] != 3:
